@@ -603,14 +603,24 @@ func NewRaft(conf *Config, fsm FSM, logs LogStore, stable StableStore, snaps Sna
 		return nil, err
 	}
 
+	// The FSM routine has to be running while committed logs are replayed: the
+	// queue in front of it is bounded and nothing else drains it.
+	if !conf.skipStartup {
+		r.goFunc(r.runFSM)
+	}
+
 	if err := r.restoreFromCommittedLogs(); err != nil {
+		// Stop the FSM routine again.
+		close(r.shutdownCh)
+		r.waitShutdown()
 		return nil, err
 	}
 
-	// Scan through the log for any configuration change entries.
+	// Scan through the log for any configuration change entries. Entries that
+	// were replayed above still carry the configuration, so the scan starts
+	// right after the snapshot.
 	snapshotIndex, _ := r.getLastSnapshot()
-	lastappliedIndex := r.getLastApplied()
-	for index := max(snapshotIndex, lastappliedIndex) + 1; index <= lastLog.Index; index++ {
+	for index := snapshotIndex + 1; index <= lastLog.Index; index++ {
 		var entry Log
 		if err := r.logs.GetLog(index, &entry); err != nil {
 			r.logger.Error("failed to get log", "index", index, "error", err)
@@ -619,6 +629,10 @@ func NewRaft(conf *Config, fsm FSM, logs LogStore, stable StableStore, snaps Sna
 		if err := r.processConfigurationLogEntry(&entry); err != nil {
 			return nil, err
 		}
+	}
+	if r.configurations.latestIndex <= r.getCommitIndex() {
+		// Known to be committed from the replayed commit index.
+		r.setCommittedConfiguration(r.configurations.latest, r.configurations.latestIndex)
 	}
 	r.logger.Info("initial configuration",
 		"index", r.configurations.latestIndex,
@@ -632,9 +646,8 @@ func NewRaft(conf *Config, fsm FSM, logs LogStore, stable StableStore, snaps Sna
 	if conf.skipStartup {
 		return r, nil
 	}
-	// Start the background work.
+	// Start the rest of the background work.
 	r.goFunc(r.run)
-	r.goFunc(r.runFSM)
 	r.goFunc(r.runSnapshots)
 	return r, nil
 }
@@ -747,6 +760,11 @@ func (r *Raft) restoreFromCommittedLogs() error {
 	}
 	if commitIndex > lastIndex {
 		commitIndex = lastIndex
+	}
+
+	if r.config().skipStartup {
+		// No FSM routine is running: the caller only wants the persisted state.
+		return nil
 	}
 
 	verifHook("commit.restore", r, r.getCommitIndex(), commitIndex, lastIndex, 0)
